@@ -34,7 +34,7 @@ GROW, GROW_MOD = "fetchgrow", "Model.FetchGrow"
 
 # work bounds (implementation side).  n = input bytes + bytes returned by the decompressor
 LINES_BASE, LINES_PER_BYTE = 400, 40          # executed afkak source lines
-MEM_BASE, MEM_PER_BYTE = 64 * 1024, 512       # tracemalloc peak above the level before the call
+MEM_BASE, MEM_PER_BYTE = 256 * 1024, 512      # tracemalloc peak above the level before the call
 TIME_BASE, TIME_PER_BYTE = 0.25, 50e-6        # seconds (generous: other builds share the machine)
 
 
@@ -439,6 +439,12 @@ def run(ck):
     vlib.import_repo()
     ck.build([CODEC, RESP, GROW])
     ck.props()
+    # optional extra tie C12 <-> C14: Model.FetchGrow.grow is Model.Consumer.grow_buffer.  Model/Consumer.v belongs to the
+    # consumer properties; when it does not build (work in progress there) the tie is recorded as absent, nothing more.
+    ok, log = ck.make_soft("Props/C12bridge.vo")
+    ck.cov["bridge_to_Model.Consumer"] = "checked" if ok else "not checked: Props/C12bridge.vo does not build (%s)" % log[-300:]
+    if ok:
+        ck.props("C12bridge")
     from props import C05 as R          # implementation runners / generators of the response decoders (read-only use)
     rnd = random.Random(ck.seed)
     thorough = ck.tier == "thorough"
@@ -491,13 +497,18 @@ def run(ck):
         bad = corruption_verdict(region, vi, exp, msgs, outcome)
         if bad:
             violation("corrupted message data delivered or not reported as a checksum error", bad + " (" + what + ")", damaged,
-                      {"original_hex": CL.raw_set(ents).hex(), "victim_entry": vi, "region": region, "delivered": msgs[:10], "outcome": err_name(outcome)})
+                      {"original_hex": CL.raw_set(ents).hex(), "victim_entry": vi, "region": region, "delivered": msgs[:10], "outcome": err_name(outcome),
+                       "messages_per_entry": [len(e) for e in exp]})
 
-    nbase = 8 * scale
+    nbase = 6 * scale + 2
     for i in range(nbase):
-        shape = i % 4          # victim in the middle / first / a gzip wrapper / last
+        # victim in the middle / first / a gzip wrapper / last / the smallest format-0 / format-1 message there is
+        shape = i % 6
         ents, exp = gen_set(rnd, 3, rnd.choice([0, 5, 1000]), wrappers=0.0, maxlen=10 if not thorough else 40)
-        vi = {0: 1, 1: 0, 2: 1, 3: 2}[shape]
+        vi = {0: 1, 1: 0, 2: 1, 3: 2, 4: rnd.choice([0, 1, 2]), 5: rnd.choice([0, 1, 2])}[shape]
+        if shape >= 4:
+            tiny = Plain(shape - 4, 0, None, rnd.choice([None, None, b""]), 7)
+            ents[vi], exp[vi] = (ents[vi][0], tiny.raw()), [(ents[vi][0], tiny.fields())]
         if shape == 2:
             o, raw, e = wrapper_entry(rnd, ents[1][0] + 1, rnd.choice([0, 1]), [gen_plain(rnd, 6), gen_plain(rnd, 6)])
             ents[1], exp[1] = (o, raw), e
@@ -560,7 +571,8 @@ def run(ck):
             ncut += 1
             if bad:
                 violation("truncated message set: not exactly the complete messages before the cut", bad, data[:cut],
-                          {"full_set_hex": data.hex(), "cut": cut, "delivered": msgs[:10], "outcome": err_name(outcome)})
+                          {"full_set_hex": data.hex(), "cut": cut, "delivered": msgs[:10], "outcome": err_name(outcome),
+                           "entry_sizes": [12 + len(r) for _, r in ents], "messages_per_entry": [len(e) for e in exp]})
             if i < 2 * scale and cut % 3 == 0:      # the same through the public decoder (what the consumer sees)
                 fb = fetch_response_bytes(data[:cut])
                 ftr, forc = R.impl_decode(4, fb, 0)
@@ -847,17 +859,29 @@ def replay(rp):
         print("message set of %d bytes -> %d message(s), then %s" % (len(data), len(msgs), err_name(outcome)))
         for o, f in msgs[:20]:
             print("   offset", o, "magic/attr/key/value/ts", f)
+        print("recorded:", rp.get("what"))
         if "original_hex" in rp and "region" in rp:
-            print("damaged region:", rp["region"], "of entry", rp.get("victim_entry"), "- original set:")
             _, _, m0, o0 = decode_impl(bytes.fromhex(rp["original_hex"]))
-            print("   original decodes to %d message(s), then %s" % (len(m0), err_name(o0)))
-            if rp["region"] in ("crc", "body"):
-                ok = outcome == CL.E_CHECKSUM and msgs == m0[:len(msgs)] and len(msgs) < len(m0)
-                print("verdict:", "ChecksumError, damaged entry not delivered" if ok else "VIOLATION reproduced")
-                return 0 if ok else 1
-        if "full_set_hex" in rp:
-            print("truncation of a %d-byte set at %d" % (len(rp["full_set_hex"]) // 2, rp.get("cut", -1)))
-        print(rp.get("what"))
+            print("undamaged set decodes to %d message(s), then %s; damaged region: %s of entry %s"
+                  % (len(m0), err_name(o0), rp["region"], rp.get("victim_entry")))
+            per, exp, i = rp.get("messages_per_entry") or [1] * len(m0), [], 0
+            for n in per:
+                exp.append(m0[i:i + n])
+                i += n
+            bad = corruption_verdict(rp["region"], rp["victim_entry"], exp, msgs, outcome)
+            print("verdict:", ("VIOLATION reproduced: " + bad) if bad else "monitor passes")
+            return 1 if bad else 0
+        if "full_set_hex" in rp and "entry_sizes" in rp:
+            full = bytes.fromhex(rp["full_set_hex"])
+            _, _, m0, o0 = decode_impl(full)
+            ents, exp, pos, i = [], [], 0, 0
+            for size, n in zip(rp["entry_sizes"], rp["messages_per_entry"]):
+                ents.append((0, full[pos + 12:pos + size]))
+                exp.append(m0[i:i + n])
+                pos, i = pos + size, i + n
+            bad = truncation_verdict(ents, exp, rp["cut"], msgs, outcome)
+            print("truncation of a %d-byte set at %d;" % (len(full), rp["cut"]), "verdict:", ("VIOLATION reproduced: " + bad) if bad else "monitor passes")
+            return 1 if bad else 0
         return 1
     if op in ("work", "decode"):
         from props import C05 as R
